@@ -58,9 +58,11 @@ def gen_mat(seed, n):
 
 KINDS = ("randn", "rand", "normal")
 SITES = ("hutch", "hutch_diag", "hutch_trace", "slq", "lanczos", "arnoldi", "power", "nystrom", "adanys", "selrank", "rsvd",
-         "eig_lanczos", "eig_arnoldi", "eig_power", "logdet", "expm", "lobpcg", "eig_lobpcg")
+         "eig_lanczos", "eig_arnoldi", "eig_power", "logdet", "expm", "lobpcg", "eig_lobpcg", "svd_lanczos", "svd_lobpcg", "eigmax_auto",
+         "sqrt_lanczos")
 # sites that draw through randn without a key (np_fns logs a warning): key parameter absent or passed through as None
 UNKEYED = ("adanys", "selrank", "rsvd")
+LOB = ("lobpcg", "eig_lobpcg", "svd_lobpcg")
 
 
 def gen_history(rnd, length, sites):
@@ -155,6 +157,18 @@ def call_site(e, start=None):
         return [arr_digest(cola.linalg.logdet(P, Lanczos(max_iters=n), Hutch(key=key, max_iters=e["max_iters"], tol=e["tol"])))], 0
     if site == "expm":
         return [arr_digest(cola.linalg.exp(P / (2.0 * n * n), Lanczos(max_iters=n)) @ np.ones(n))], 0
+    if site == "svd_lanczos":
+        from cola.linalg.svd.svd import svd
+        U, Sg, V = svd(ops.Dense(G), 2, "LM", Lanczos(max_iters=n))
+        return [arr_digest(U.to_dense(), Sg.to_dense(), V.to_dense())], 0
+    if site == "svd_lobpcg":
+        from cola.linalg.svd.svd import svd
+        U, Sg, V = svd(ops.Dense(G), 2, "LM", LOBPCG(max_iters=2))
+        return [arr_digest(U.to_dense(), Sg.to_dense(), V.to_dense())], 0
+    if site == "eigmax_auto":            # Auto -> PowerIteration with the default key
+        return [arr_digest(cola.linalg.eigmax(P))], 0
+    if site == "sqrt_lanczos":           # Lanczos started from the operand: no draw at all
+        return [arr_digest(cola.linalg.sqrt(P, Lanczos(max_iters=n)) @ np.ones(n))], 0
     if site == "lobpcg":
         w, V = lobpcg(P, max_iters=2)
         return [arr_digest(w, V.to_dense())], 0
@@ -200,7 +214,7 @@ def reference_run(hist, seed0, lob_global, tabs):
         before = state_digest()
         if e["e"] == "cola":
             p = []
-            if e["site"] in ("lobpcg", "eig_lobpcg") and lob_global:
+            if e["site"] in LOB and lob_global:
                 c = lobpcg_draw_count(e)
                 np.random.normal(size=c)
                 tabs.draw[(before, code(c, 2))] = (0, state_digest())
@@ -293,7 +307,7 @@ def coq_history(hist, g0, ref_states, impl, tabs, lob_global, clean):
             elif site == "nystrom":
                 tabs.need_keyed(tabs.sha[42] if key is None else key, n * e["rank"])
                 evs.append(f"e_nystrom T {okey(key)} {code(n * e['rank'])}%nat {res}")
-            elif site in ("eig_lanczos", "eig_arnoldi", "eig_power", "expm"):
+            elif site in ("eig_lanczos", "eig_arnoldi", "eig_power", "expm", "svd_lanczos", "eigmax_auto", "sqrt_lanczos"):
                 tabs.need_keyed(tabs.sha[42], n)
                 evs.append(f"e_nystrom T None {code(n)}%nat {res}")
             elif site in ("adanys", "selrank"):
@@ -303,7 +317,7 @@ def coq_history(hist, g0, ref_states, impl, tabs, lob_global, clean):
             elif site == "rsvd":
                 tabs.need_keyed(tabs.sha[0], n * (e["rank"] + 1))
                 evs.append(f"e_unkeyed {code(n * (e['rank'] + 1))}%nat {res}")
-            elif site in ("lobpcg", "eig_lobpcg"):
+            elif site in LOB:
                 if lob_global:
                     evs.append(f"e_lobpcg {code(lobpcg_draw_count(e), 2)}%nat")
                 else:
@@ -313,7 +327,7 @@ def coq_history(hist, g0, ref_states, impl, tabs, lob_global, clean):
     obs = []
     for e, o in zip(hist, impl):
         p = o["payload"]
-        if e["e"] == "cola" and e["site"] in ("lobpcg", "eig_lobpcg") and lob_global:
+        if e["e"] == "cola" and e["site"] in LOB and lob_global:
             p = []                                # its value depends on the history (that is the defect); state only
         obs.append("(%d, [%s])" % (o["state"], ";".join(str(x) for x in p)))
 
@@ -352,7 +366,7 @@ def oracle_history(hist, impl, clean, lob_known):
         if o["err"]:
             bad.append(f"event {i} {e['site']} raised {o['err']}")
             continue
-        lob = e["site"] in ("lobpcg", "eig_lobpcg")
+        lob = e["site"] in LOB
         if lob and lob_known:
             continue
         if o["state"] != o["before"]:
